@@ -207,7 +207,10 @@ func runC14(c *rt.Ctx) {
 			cfgs = append(cfgs, Cfg{Orca: o, Lock: "none", Proto: "binary", L1H: h})
 		}
 	}
-	cfgs = append(cfgs, Cfg{Orca: "l1l2", Lock: "none", Proto: "text", L1H: "std"}, Cfg{Orca: "l1l2b", Lock: "multi", Proto: "binary", L1H: "std"})
+	cfgs = append(cfgs, Cfg{Orca: "l1l2", Lock: "none", Proto: "text", L1H: "std"}, Cfg{Orca: "l1l2b", Lock: "multi", Proto: "binary", L1H: "std"},
+		// what memproxy --chunked --locked deploys, with a one-stripe lock table: private keys of
+		// different connections share the stripe
+		Cfg{Orca: "l1only", Lock: "single", Proto: "binary", L1H: "chunked", Conc: 0})
 	bound := 1
 	maxExecs := 4000
 	if c.Thorough() {
@@ -222,6 +225,14 @@ func runC14(c *rt.Ctx) {
 			scs = append(scs, IsoScenario{Cfg: cfg, Threads: [][]wire.Op{progs[0][start : start+2], progs[1][start : start+2]}})
 		}
 		scs = append(scs, IsoScenario{Cfg: cfg, Threads: [][]wire.Op{progs[0][:3], progs[1][1:4], progs[2][2:5]}})
+		if cfg.Lock != "none" && cfg.Proto == "binary" {
+			// one connection provokes a failure below the lock table (the chunked backend does not
+			// support get-with-expiry and panics; with std it simply works) while another works
+			// on its own key: the other connection must see what it sees alone
+			scs = append(scs, IsoScenario{Cfg: cfg, Threads: [][]wire.Op{
+				{{Kind: "set", Key: "c0-k", Val: "v0", Flags: 1}, {Kind: "gete", Key: "c0-k"}, {Kind: "get", Key: "c0-k"}},
+				{{Kind: "set", Key: "c1-k", Val: "v1", Flags: 2}, {Kind: "get", Key: "c1-k"}, {Kind: "delete", Key: "c1-k"}}}})
+		}
 		for _, sc := range scs {
 			item++
 			if !c.Mine(item) {
